@@ -4,6 +4,8 @@ import json, os
 HERE = os.path.dirname(os.path.dirname(os.path.abspath(__file__)))
 TECH = "bounded symbolic execution of the real /repo C sources with CBMC 6.11 (goto-cc build, SAT/SMT back ends); counterexamples replayed natively against the same sources"
 CLAIMED = {
+ "C01": ("pass composition of the symbol table: the real EnterIntSymbolWithFlags/EnterSymbol/SymbolAdder/LookupSymbol/FindNode/ResetSymbolDefines for 2 symbols over every interleaving of 4 use/define events with arbitrary values: a pass that ends without repass request and without error gave every reference the symbol's final value; an unchanged layout requests no further pass; a moved constant forces one",
+         "DESIGN.md C01", "tree replaced by a list contract, name handling cut to identity on one-letter names, no sections; termination (liveness) and the code generators' size selection are outside; the padded-label livelock is a known finding (DESIGN.md)"),
  "C02": ("WrErrorString counters as an inductive step (any counts < 2^31, any class/-Werror/-maxerrors), exit(3)+unlink on fatal, classification of every 16-bit message number in WrXErrorPos, EXPECT/ENDEXPECT bookkeeping",
          "DESIGN.md C02", "message text, position strings and output channels cut to empty bodies; exit() modelled; AssembleFile decision skeleton not yet covered"),
  "C04": ("asmcode.c writer: one inductive step each of WriteBytes/NewRecord/OpenFile/CloseFile/RetractWords from an arbitrary state satisfying the representation invariant, byte-exact through a witness cell at an arbitrary file offset",
@@ -12,6 +14,8 @@ CLAIMED = {
          "DESIGN.md C08", "CBMC bit-precise integer/IEEE semantics; diag.c stub for the error interface; relocations cut; operator split inside EvalStrExpression, libm results, literals and functions not yet covered are outside the claim"),
  "C09": ("IEEE half/single/double/extended encoders of ieeefloat.c for every double bit pattern and both byte orders vs bit-level statements of IEEE-754 RNE / the x87 layout",
          "DESIGN.md C09", "CBMC's (float)/(_Float16) casts as round-to-nearest-even oracle; signalling-NaN payloads excluded; argument-list syntax, padding and integer range checks not yet covered"),
+ "C13": ("EQU/SET rules through the real EnterIntSymbolWithFlags/SymbolAdder/LookupSymbol: a constant never changes silently, SET may, double definition and EQU/SET mixing are errors",
+         "DESIGN.md C13", "same cuts as C01; section resolution order, PUBLIC/GLOBAL/FORWARD, local handles, PUSHV/POPV, case folding and temporary symbols are not yet covered"),
  "C12": ("asmif.c complete: every sequence of K statements (17 kinds, arbitrary 64-bit conditions/selectors, 0..3 arguments) vs a reference interpreter written from the manual",
          "DESIGN.md C12", "expression evaluator and symbol/macro/file look-ups replaced by stubs returning arbitrary values; listing decoration stubbed; integer selectors; K=4 quick / K=6 thorough"),
 }
